@@ -55,9 +55,9 @@ Ltac u_norm :=
   repeat match goal with H : a_lifo _ = _ |- _ => rewrite H end;
   rewrite ?pc_elems_rest, ?pc_pending_rest; cbn [pc_elems pc_pending length]; held_norm.
 
-Lemma uinv_step P fails c t : p_mu P <> INT32_MAX -> UInv P c -> UInv P (astep P fails c t).
+Lemma uinv_step fx P fails c t : p_mu P <> INT32_MAX -> UInv P c -> UInv P (astep fx P fails c t).
 Proof.
-  intros Hmu [Hu Hl]. unfold astep, alloc_path. destruct (nth_error (a_thr c) t) as [th|] eqn:E; [|split; assumption].
+  intros Hmu [Hu Hl]. unfold astep, alloc_path, free_path. destruct (nth_error (a_thr c) t) as [th|] eqn:E; [|split; assumption].
   pose proof (sumT_ge_nth thr_elems _ _ _ thr_elems_nonneg E) as Hge. rewrite thr_elems_eq in Hge.
   pose proof (sumT_nonneg thr_pending (a_thr c) thr_pending_nonneg) as Hpn.
   pose proof (sumT_ge_nth thr_pending _ _ _ thr_pending_nonneg E) as Hgp. rewrite thr_pending_eq in Hgp.
@@ -78,12 +78,15 @@ Lemma a_live_init progs : a_live (ainit progs) = 0.
 Proof. unfold a_live, ainit; cbn [a_thr a_lifo length]. rewrite sumT_map_zero; reflexivity. Qed.
 Lemma a_pending_init progs : a_pending (ainit progs) = 0.
 Proof. unfold a_pending, ainit; cbn [a_thr]. rewrite sumT_map_zero; reflexivity. Qed.
-Lemma uinv_run P fails progs sched : p_mu P <> INT32_MAX -> 0 <= p_mu P ->
-  UInv P (arun P fails (ainit progs) sched).
+Lemma uinv_run_gen fx P fails progs sched : p_mu P <> INT32_MAX -> 0 <= p_mu P ->
+  UInv P (arun_gen fx P fails (ainit progs) sched).
 Proof.
-  intros Hmu H0. unfold arun. apply fold_left_inv; [intros a b; apply uinv_step; assumption|].
+  intros Hmu H0. unfold arun_gen. apply fold_left_inv; [intros a b; apply uinv_step; assumption|].
   unfold UInv. rewrite a_live_init, a_pending_init. cbn [ainit a_used]. lia.
 Qed.
+Lemma uinv_run P fails progs sched : p_mu P <> INT32_MAX -> 0 <= p_mu P ->
+  UInv P (arun P fails (ainit progs) sched).
+Proof. apply uinv_run_gen. Qed.
 
 (* an arena with an allocation limit never has more than max_used elements allocated (in hand or cached) *)
 Theorem arena_limit_respected P fails progs sched : p_mu P <> INT32_MAX -> 0 <= p_mu P ->
@@ -124,12 +127,12 @@ Qed.
 (* a request that would take the counter beyond the limit is refused: NULL, nothing allocated, counter restored *)
 Theorem arena_refuses_beyond_limit P fails c t th cnt :
   nth_error (a_thr c) t = Some th -> t_pc th = GAdd cnt -> a_used c + Z.pos cnt > p_mu P ->
-  let c2 := astep P fails (astep P fails c t) t in
+  let c2 := astep false P fails (astep false P fails c t) t in
   exists th2, nth_error (a_thr c2) t = Some th2 /\ t_log th2 = RNull :: t_log th /\ t_held th2 = t_held th /\
               a_allocs c2 = a_allocs c /\ a_used c2 = a_used c /\ a_lifo c2 = a_lifo c.
 Proof.
   intros E Hpc Hgt c2.
-  assert (E1 : astep P fails c t = set_thr (set_used c (a_used c + Z.pos cnt)) t (goto th (GFail cnt))).
+  assert (E1 : astep false P fails c t = set_thr (set_used c (a_used c + Z.pos cnt)) t (goto th (GFail cnt))).
   { unfold astep. rewrite E, Hpc. destruct (a_used c + Z.pos cnt >? p_mu P) eqn:Eg; [reflexivity|lia]. }
   unfold c2. rewrite E1. unfold astep. cbn [a_thr set_thr set_used].
   rewrite (nth_upd_same _ _ _ _ E). cbn [t_pc goto].
@@ -144,11 +147,7 @@ Definition RInv (P : aparams) (c : acfg) : Prop :=
   a_rel c = Z.of_nat (length (a_lifo c)) + cnt is_relwin (a_thr c) /\
   a_rel c + cnt is_rinc (a_thr c) <= p_mr P + Z.max 0 (nthreads c - 1).
 
-Lemma is_relwin_eq th : is_relwin th = match t_pc th with RPush _ | GDecRel _ => true | _ => false end.
-Proof. reflexivity. Qed.
-Lemma is_rinc_eq th : is_rinc th = match t_pc th with RInc _ => true | _ => false end.
-Proof. reflexivity. Qed.
-Definition pc_relwin (p : apc) : bool := match p with RPush _ | GDecRel _ => true | _ => false end.
+Definition pc_relwin (p : apc) : bool := match p with RPush _ | GDecRel _ | RUndo _ => true | _ => false end.
 Definition pc_rinc (p : apc) : bool := match p with RInc _ => true | _ => false end.
 Lemma is_relwin_pc th : is_relwin th = pc_relwin (t_pc th). Proof. reflexivity. Qed.
 Lemma is_rinc_pc th : is_rinc th = pc_rinc (t_pc th). Proof. reflexivity. Qed.
@@ -162,9 +161,9 @@ Ltac r_norm :=
   repeat match goal with H : a_lifo _ = _ |- _ => rewrite H end;
   rewrite ?pc_relwin_rest, ?pc_rinc_rest; cbn [pc_relwin pc_rinc length].
 
-Lemma rinv_step P fails c t : p_mr P <> INT32_MAX -> RInv P c -> RInv P (astep P fails c t).
+Lemma rinv_step P fails c t : p_mr P <> INT32_MAX -> RInv P c -> RInv P (astep false P fails c t).
 Proof.
-  intros Hmr [Hr Hb]. unfold astep, alloc_path. destruct (nth_error (a_thr c) t) as [th|] eqn:E; [|split; assumption].
+  intros Hmr [Hr Hb]. unfold astep, alloc_path, free_path. cbv iota. destruct (nth_error (a_thr c) t) as [th|] eqn:E; [|split; assumption].
   pose proof (cnt_nonneg is_rinc (a_thr c)) as Hn1. pose proof (cnt_nonneg is_relwin (a_thr c)) as Hn2.
   assert (Hlen : 1 <= nthreads c).
   { unfold nthreads. destruct (a_thr c); [destruct t; discriminate|]. cbn [length]. lia. }
@@ -187,20 +186,22 @@ Proof.
   intros H0. unfold RInv, ainit, nthreads; cbn [a_rel a_lifo a_thr length].
   rewrite !cnt_map_false by reflexivity. lia.
 Qed.
-Lemma astep_nthreads P fails c t : length (a_thr (astep P fails c t)) = length (a_thr c).
+Lemma astep_nthreads fx P fails c t : length (a_thr (astep fx P fails c t)) = length (a_thr c).
 Proof.
-  unfold astep, alloc_path. destruct (nth_error (a_thr c) t) as [th|] eqn:E; [|reflexivity].
+  unfold astep, alloc_path, free_path. destruct (nth_error (a_thr c) t) as [th|] eqn:E; [|reflexivity].
   break_step; try give_absurd; cfg_simpl; upd_norm; reflexivity.
 Qed.
-Lemma arun_nthreads P fails c sched : length (a_thr (arun P fails c sched)) = length (a_thr c).
+Lemma arun_gen_nthreads fx P fails c sched : length (a_thr (arun_gen fx P fails c sched)) = length (a_thr c).
 Proof.
   revert c. induction sched as [|t s IH]; intros c; [reflexivity|].
-  cbn [arun fold_left]. fold (arun P fails (astep P fails c t) s). rewrite IH. apply astep_nthreads.
+  cbn [arun_gen fold_left]. fold (arun_gen fx P fails (astep fx P fails c t) s). rewrite IH. apply astep_nthreads.
 Qed.
+Lemma arun_nthreads P fails c sched : length (a_thr (arun P fails c sched)) = length (a_thr c).
+Proof. apply arun_gen_nthreads. Qed.
 Lemma rinv_run P fails progs sched : p_mr P <> INT32_MAX -> 0 <= p_mr P ->
   RInv P (arun P fails (ainit progs) sched).
 Proof.
-  intros Hmr H0. unfold arun. apply fold_left_inv; [intros a b; apply rinv_step; assumption|].
+  intros Hmr H0. unfold arun, arun_gen. apply fold_left_inv; [intros a b; apply rinv_step; assumption|].
   apply rinv_init; assumption.
 Qed.
 
@@ -233,10 +234,10 @@ Proof. intros Hmr H0 c. pose proof (cache_bound_true P fails [prog] sched Hmr H0
 Definition windows_disjoint P fails c0 sched : Prop :=
   forall k, cnt is_rinc (a_thr (arun P fails c0 (firstn k sched))) <= 1.
 Lemma rinv_seq_step P fails c t : p_mr P <> INT32_MAX ->
-  a_rel c + cnt is_rinc (a_thr c) <= p_mr P -> cnt is_rinc (a_thr (astep P fails c t)) <= 1 ->
-  a_rel (astep P fails c t) + cnt is_rinc (a_thr (astep P fails c t)) <= p_mr P.
+  a_rel c + cnt is_rinc (a_thr c) <= p_mr P -> cnt is_rinc (a_thr (astep false P fails c t)) <= 1 ->
+  a_rel (astep false P fails c t) + cnt is_rinc (a_thr (astep false P fails c t)) <= p_mr P.
 Proof.
-  intros Hmr Hb. unfold astep, alloc_path. destruct (nth_error (a_thr c) t) as [th|] eqn:E; [|intros; assumption].
+  intros Hmr Hb. unfold astep, alloc_path, free_path. cbv iota. destruct (nth_error (a_thr c) t) as [th|] eqn:E; [|intros; assumption].
   pose proof (cnt_nonneg is_rinc (a_thr c)) as Hn1.
   assert (Hrp : is_rinc th = true -> 1 <= cnt is_rinc (a_thr c)).
   { intros Hf. pose proof (cnt_pos_of_nth is_rinc _ _ _ E Hf). lia. }
@@ -254,8 +255,8 @@ Proof.
   intros Hmr H0 Hw c.
   assert (H : a_rel c + cnt is_rinc (a_thr c) <= p_mr P).
   { unfold c. clear c. revert Hw. induction sched as [|t s IH] using rev_ind; intros Hw.
-    - cbn [arun fold_left ainit a_rel a_thr]. rewrite cnt_map_false by reflexivity. lia.
-    - unfold arun. rewrite fold_left_app. cbn [fold_left]. fold (arun P fails (ainit progs) s).
+    - cbn [arun arun_gen fold_left ainit a_rel a_thr]. rewrite cnt_map_false by reflexivity. lia.
+    - unfold arun, arun_gen. rewrite fold_left_app. cbn [fold_left]. fold (arun P fails (ainit progs) s).
       apply rinv_seq_step; [assumption| |].
       + apply IH. intros k. specialize (Hw (Nat.min k (length s))).
         rewrite firstn_app in Hw. replace (Nat.min k (length s) - length s)%nat with 0%nat in Hw by lia.
@@ -264,7 +265,7 @@ Proof.
         * rewrite Nat.min_l in Hw by assumption. assumption.
         * rewrite Nat.min_r in Hw by lia. rewrite firstn_all in Hw. rewrite firstn_all2 by lia. assumption.
       + specialize (Hw (length (s ++ [t]))). rewrite firstn_all in Hw.
-        unfold arun in Hw. rewrite fold_left_app in Hw. exact Hw. }
+        unfold arun, arun_gen in Hw. rewrite fold_left_app in Hw. exact Hw. }
   destruct (rinv_run P fails progs sched Hmr H0) as [Hr _]. fold c in Hr.
   pose proof (cnt_nonneg is_rinc (a_thr c)). pose proof (cnt_nonneg is_relwin (a_thr c)). lia.
 Qed.
@@ -291,3 +292,57 @@ Proof.
          [0;0;0; 1;1;1; 2;2;2; 0;1;2; 0;1;2; 0;1;2]%nat.
   split; [discriminate|]. vm_compute. reflexivity.
 Qed.
+
+(* ---- the repaired release_chunk (fx = true): the cache limit holds for every schedule ----
+   reserved = cached blocks + successful reservations not yet pushed + popped blocks whose decrement is pending
+            = released - (failed reservations not yet undone) *)
+Definition pc_rundo (p : apc) : bool := match p with RUndo _ => true | _ => false end.
+Lemma is_rundo_pc th : is_rundo th = pc_rundo (t_pc th). Proof. reflexivity. Qed.
+Lemma pc_rundo_rest ops : pc_rundo (rest_pc ops) = false. Proof. destruct ops; reflexivity. Qed.
+Definition FInv (P : aparams) (c : acfg) : Prop :=
+  a_rel c = Z.of_nat (length (a_lifo c)) + cnt is_relwin (a_thr c) /\
+  a_rel c - cnt is_rundo (a_thr c) <= p_mr P.
+
+Lemma finv_step P fails c t : p_mr P <> INT32_MAX -> FInv P c -> FInv P (astep true P fails c t).
+Proof.
+  intros Hmr [Hr Hb]. unfold astep, alloc_path, free_path. cbv iota. destruct (nth_error (a_thr c) t) as [th|] eqn:E; [|split; assumption].
+  pose proof (cnt_nonneg is_rundo (a_thr c)) as Hn1. pose proof (cnt_nonneg is_relwin (a_thr c)) as Hn2.
+  assert (Hup : is_rundo th = true -> 1 <= cnt is_rundo (a_thr c)).
+  { intros Hf. pose proof (cnt_pos_of_nth is_rundo _ _ _ E Hf). lia. }
+  assert (Hwp : is_relwin th = true -> 1 <= cnt is_relwin (a_thr c)).
+  { intros Hf. pose proof (cnt_pos_of_nth is_relwin _ _ _ E Hf). lia. }
+  rewrite is_rundo_pc in Hup. rewrite is_relwin_pc in Hwp.
+  unfold FInv in *.
+  break_step; try give_absurd; try (split; assumption).
+  all: repeat match goal with H : t_pc _ = _ |- _ => rewrite H in * end; cbn [pc_relwin pc_rundo] in *.
+  all: try specialize (Hup eq_refl); try specialize (Hwp eq_refl).
+  all: unfold nthreads; cfg_simpl; upd_norm;
+       rewrite ?is_relwin_pc, ?is_rundo_pc; cfg_simpl;
+       repeat match goal with H : t_pc _ = _ |- _ => rewrite H end;
+       repeat match goal with H : a_lifo _ = _ |- _ => rewrite H end;
+       rewrite ?pc_relwin_rest, ?pc_rundo_rest; cbn [pc_relwin pc_rundo length andb negb] in *; split; lia.
+Qed.
+
+Theorem cache_bound_fixed P fails progs sched : p_mr P <> INT32_MAX -> 0 <= p_mr P ->
+  let c := arun_gen true P fails (ainit progs) sched in
+  Z.of_nat (length (a_lifo c)) <= p_mr P /\
+  a_rel c <= p_mr P + Z.of_nat (length progs).
+Proof.
+  intros Hmr H0 c.
+  assert (H : FInv P c).
+  { unfold c, arun_gen. apply fold_left_inv; [intros a b; apply finv_step; assumption|].
+    unfold FInv, ainit; cbn [a_rel a_lifo a_thr length]. rewrite !cnt_map_false by reflexivity. lia. }
+  destruct H as [Hr Hb].
+  pose proof (cnt_nonneg is_relwin (a_thr c)) as Hn.
+  assert (Hle : cnt is_rundo (a_thr c) <= cnt is_relwin (a_thr c)).
+  { clear. induction (a_thr c) as [|x l IH]; [rewrite !cnt_nil; lia|]. rewrite !cnt_cons.
+    unfold is_rundo at 1, is_relwin at 1. destruct (t_pc x); lia. }
+  pose proof (cnt_le_len is_rundo (a_thr c)) as Hlen.
+  unfold c in Hlen at 2. rewrite arun_gen_nthreads in Hlen. unfold ainit in Hlen; cbn [a_thr] in Hlen. rewrite map_length in Hlen.
+  split; lia.
+Qed.
+(* the refuting schedule of the unrepaired code, replayed on the repaired model: one block is cached, one is freed *)
+Example cache_bound_fixed_witness :
+  let c := arun_gen true refute_P [] (ainit refute_progs) (refute_sched ++ [0;1;0;1]%nat) in
+  a_rel c = 1 /\ length (a_lifo c) = 1%nat /\ length (a_freed c) = 1%nat /\ cnt a_is_done (a_thr c) = 2.
+Proof. vm_compute. repeat split. Qed.
